@@ -12,9 +12,86 @@
 import Mathlib.Tactic.Ring
 import BB.Proofs.DictEq
 import BB.Model.Sequence
+import BB.Proofs.ForgeSeq
 
 namespace BB.C18
 open BB BB.Sequence
+
+/-! ### the forged structure, position by position -/
+
+/-- `forge` returns one entry per position, labelled 1..N in order -/
+theorem forge_positions (s : Sequence) (d f t : Bool) (out : List (Nat × ForgedPos)) (h : s.forge d f t = .ok out) :
+    out.length = s.data.length ∧ ∀ i (hi : i < out.length), (out[i]).1 = i + 1 :=
+  ⟨(forge_pos s d f t out h).1, fun i hi => forge_labels s d f t out h i hi⟩
+
+/-- an element position: the position's sequencing entry, type 'element', exactly one content entry
+    (numbered 1, no sequencing of its own) with the arrays of the — delayed, if requested — element
+    and the declared filters attached where requested -/
+theorem forge_element_position (s : Sequence) (d f t : Bool) (out : List (Nat × ForgedPos)) (h : s.forge d f t = .ok out)
+    (i : Nat) (hi : i < out.length) (e : Element) (he : Dict.get? s.data ((i + 1 : Nat) : Int) = some (.el e)) :
+    ∃ e' arr c sq, delayedEl s d e = .ok e' ∧ e'.getArrays t = .ok arr ∧ s.withFilters f arr = .ok c ∧
+      Dict.get? s.sequencing ((i + 1 : Nat) : Int) = some sq ∧
+      out[i] = (i + 1, { sequencing := sq, isSub := false, content := [(1, c, none)] }) := by
+  obtain ⟨en, hen, hpos⟩ := (forge_pos s d f t out h).2 i hi
+  rw [he] at hen
+  cases hen
+  exact forgePos_element s d f t (i + 1) e _ hpos
+
+/-- a subsequence position: the position's sequencing entry, type 'subsequence', one content
+    entry per subsequence position 1..n with that position's own sequencing entry -/
+theorem forge_subsequence_position (s : Sequence) (d f t : Bool) (out : List (Nat × ForgedPos)) (h : s.forge d f t = .ok out)
+    (i : Nat) (hi : i < out.length) (sub : SubSeq) (he : Dict.get? s.data ((i + 1 : Nat) : Int) = some (.sub sub)) :
+    ∃ sq, Dict.get? s.sequencing ((i + 1 : Nat) : Int) = some sq ∧ (out[i]).2.sequencing = sq ∧ (out[i]).2.isSub = true ∧
+      (out[i]).2.content.length = sub.data.length ∧
+      ∀ j (hj : j < (out[i]).2.content.length), ∃ c q2,
+        Dict.get? sub.sequencing ((j + 1 : Nat) : Int) = some q2 ∧ (out[i]).2.content[j] = (j + 1, c, some q2) := by
+  obtain ⟨en, hen, hpos⟩ := (forge_pos s d f t out h).2 i hi
+  rw [he] at hen
+  cases hen
+  obtain ⟨sq, h1, _, h3, h4, h5, h6⟩ := forgePos_sub s d f t (i + 1) sub _ hpos
+  refine ⟨sq, h1, h3, h4, h5, fun j hj => ?_⟩
+  obtain ⟨_, _, _, c, q2, _, _, _, _, hq, hc⟩ := h6 j hj
+  exact ⟨c, q2, hq, hc⟩
+
+theorem get?_map_el (d : Dict Int Element) (k : Int) :
+    Dict.get? (d.map (fun pe => (pe.1, Entry.el pe.2))) k = (Dict.get? d k).map Entry.el := by
+  induction d with
+  | nil => rfl
+  | cons x xs ih =>
+    unfold Dict.get? at *
+    simp only [List.map_cons, List.find?_cons]
+    by_cases hk : x.1 = k
+    · simp [hk]
+    · simp only [hk, decide_false]
+      exact ih
+
+/-- **a subsequence forges exactly like the same subsequence forged on its own under the parent's
+    delay and filter settings**: if both forge, content entry `j` of the subsequence position is
+    (position `j+1`, the arrays of the stand-alone result's position `j+1`, its sequencing entry) -/
+theorem forge_subsequence_standalone (s : Sequence) (d f t : Bool) (out : List (Nat × ForgedPos))
+    (h : s.forge d f t = .ok out) (i : Nat) (hi : i < out.length) (sub : SubSeq)
+    (he : Dict.get? s.data ((i + 1 : Nat) : Int) = some (.sub sub))
+    (out' : List (Nat × ForgedPos)) (h' : (asSequence s sub).forge d f t = .ok out') :
+    (out[i]).2.content.length = out'.length ∧
+    ∀ j (hj : j < (out[i]).2.content.length) (hj' : j < out'.length), ∃ c q2,
+      (out[i]).2.content[j] = (j + 1, c, some q2) ∧
+      out'[j] = (j + 1, { sequencing := q2, isSub := false, content := [(1, c, none)] }) := by
+  obtain ⟨en, hen, hpos⟩ := (forge_pos s d f t out h).2 i hi
+  rw [he] at hen
+  cases hen
+  obtain ⟨_, _, _, _, _, hlen, _⟩ := forgePos_sub s d f t (i + 1) sub _ hpos
+  obtain ⟨hl', hpos'⟩ := forge_pos (asSequence s sub) d f t out' h'
+  have hl'' : out'.length = sub.data.length := by simpa [asSequence] using hl'
+  refine ⟨by omega, fun j hj hj' => ?_⟩
+  obtain ⟨e, c, q2, hge, hc, hst⟩ := sub_content_standalone s d f t (i + 1) sub _ hpos j hj
+  obtain ⟨en', hen', hp'⟩ := hpos' j hj'
+  have : Dict.get? (asSequence s sub).data ((j + 1 : Nat) : Int) = some (.el e) := by
+    simp only [asSequence]
+    rw [get?_map_el, hge]; rfl
+  rw [this] at hen'
+  cases hen'
+  rw [hst] at hp'
+  exact ⟨c, q2, hc, (Except.ok.inj hp').symm⟩
 
 /-! ### addSubSequence: what is refused, what is stored -/
 
